@@ -21,6 +21,10 @@ pub fn check(tier: Tier) -> Check {
     }
     parts.push(Part::new("C07/fields", json!({}), 0, tier.pick(20, 60)));
     parts.push(Part::new("C07/dispatch", json!({"depth": tier.pick(5, 6), "flavour": 1}), 0, tier.pick(30, 400)));
+    // identifier flavour: the counters start next to a boundary of their encodings (DESIGN 4)
+    parts.push(Part::new("C07/dispatch", json!({"depth": tier.pick(5, 6), "ids": [255, 127]}), 0, tier.pick(30, 400)));
+    parts.push(Part::new("C07/dispatch", json!({"depth": tier.pick(5, 6), "ids": [65535, 16383]}), 0, tier.pick(30, 400)));
+    parts.push(Part::new("C07/dispatch", json!({"depth": tier.pick(4, 5), "ids": [32767, 2097151]}), 0, tier.pick(30, 400)));
     // four established subscriptions: stream drops / lag in every order, messages to every one
     parts.push(Part::new("C07/many", json!({"subs": 4, "depth": tier.pick(5, 6)}), tier.pick(0, 1), tier.pick(30, 400)));
     Check {
